@@ -2,12 +2,17 @@ package main
 
 import (
 	"encoding/json"
+
+	"github.com/gobuffalo/plush/v5"
 	"sync"
 	"time"
 )
 
 // corpusItem is a template with its context data, taken from the generator machines.
 type corpusItem struct {
+	// Ctx puts Go data the abstract values cannot describe into the context; Want is the known result
+	Ctx   func(ctx *plush.Context)
+	Want  string
 	Src   string
 	Case  *semCase
 	Perm  bool // output depends on Go map order (compared as a set elsewhere)
@@ -43,6 +48,13 @@ var handCorpus = []string{
 	// a template that includes its own text as a partial (one Template value executing re-entrantly when the cache is on)
 	`<%= if (n) { %><%= n %>[<%= if (n == "a") { %><%= partial("self", {n: "b"}) %><% } %>]<%= n %><% } else { %>(<%= partial("self", {n: "a"}) %>)<% } %>`,
 	`<% let m = "m" %><%= if (n) { %><%= n %><%= m %><% } else { %><%= partial("self", {n: "1"}) %>/<%= partial("self", {n: "2"}) %>/<%= m %><% } %>`,
+	// if chains with three to seven else-if branches and an else (the else-if list of the parsed tree has spare capacity)
+	`<%= if (false) { %>a<% } else if (false) { %>b<% } else if (false) { %>c<% } else if (gid) { %>d<% } else { %>e<% } %>|<%= if (false) { %>a<% } else if (false) { %>b<% } else if (false) { %>c<% } else if (false) { %>d<% } else { %>e<% } %>`,
+	`<%= if (false) { %>1<% } else if (false) { %>2<% } else if (false) { %>3<% } else if (false) { %>4<% } else if (false) { %>5<% } else if (false) { %>6<% } else { %>z<% } %><%= if (zz) { %>1<% } else if (zz) { %>2<% } else if (zz) { %>3<% } else if (zz) { %>4<% } else if (zz) { %>5<% } else if (zz) { %>6<% } else if (zz) { %>7<% } else if (zz) { %>8<% } else { %>y<% } %>`,
+	// a time value printed with the TIME_FORMAT of its own execution: some executions bind one, others do not
+	`<%= if (gid ~= "[13579]q") { %><% let TIME_FORMAT = "2006-01-02" %><% } %><%= tm %>|<%= for (i) in [1, 2, 3] { %><%= tm %>,<% } %>`,
+	`<% let TIME_FORMAT = "Jan 2" %><%= tm %>/<%= for (i) in [1, 2] { %><%= tm %><% } %>`,
+	`<%= tm %>`,
 	`<%= 1 / 0 %>`,
 	`<%= 1 +`,
 	`<% if (true) { %>open`,
@@ -95,6 +107,29 @@ func collectCorpus(c *Ctx, runs []struct{ Module, Cfg string }, perRun int) ([]c
 	}
 	for i, s := range handCorpus {
 		items = append(items, corpusItem{Src: s, Case: &semCase{Gen: "hand", Data: absMap{}}, Label: "hand:" + string(rune('a'+i))})
+	}
+	// two DIFFERENT Go types that print the same type name and hold the same field names at other positions, each
+	// rendered several times, the other one in between
+	twin := `<%= row.Name %>/<%= row.ID %>|<%= for (r) in rows { %><%= r.ID %>:<%= r.Name %>;<% } %>`
+	for i := 0; i < 2; i++ {
+		items = append(items,
+			corpusItem{Src: twin, Case: &semCase{Gen: "hand", Data: absMap{}}, Label: "hand:twinA", Want: "ann/7|7:ann;8:bo;", Ctx: func(ctx *plush.Context) {
+				type Row struct {
+					Name string
+					ID   string
+				}
+				ctx.Set("row", Row{"ann", "7"})
+				ctx.Set("rows", []Row{{"ann", "7"}, {"bo", "8"}})
+			}},
+			corpusItem{Src: twin, Case: &semCase{Gen: "hand", Data: absMap{}}, Label: "hand:twinB", Want: "cy/3|3:cy;4:di;", Ctx: func(ctx *plush.Context) {
+				type Row struct {
+					ID   string
+					Pad  int
+					Name string
+				}
+				ctx.Set("row", Row{"3", 0, "cy"})
+				ctx.Set("rows", []Row{{"3", 0, "cy"}, {"4", 0, "di"}})
+			}})
 	}
 	return items, nil
 }
